@@ -280,8 +280,10 @@ def run(ctx, eng):
                'acknowledged by a frame: stream 1 gets the announced window '
                'only because a new stream reads the current local value, not '
                'a copy refreshed at ACK time')
-    cm.include(ctx, eng, 'C03', {'FLOW.init'},
-               'likewise for the server\'s view of the client\'s window')
+    cm.include(ctx, eng, 'C03', {'FLOW.init', 'OWN.window'},
+               'likewise for the server\'s view of the client\'s window; '
+               'and the upgrade step leaves the windows of stream 1 as the '
+               'settings made them')
     cm.include(ctx, eng, 'C11', {'OWN.ack-caller'},
                'the header and the preface are both filled from '
                'local_settings: they agree because nothing makes pending '
